@@ -136,8 +136,9 @@ fn send(mech: usize, sig: i32) -> Option<i32> {
                     }
                 }
                 // give the kernel's SIGCHLD a moment (it is synchronous with the state change, but be safe)
+                let need = if mech == 7 { 2 } else { 1 };
                 for _ in 0..200 {
-                    if RAW[4].load(Ordering::SeqCst) > 0 {
+                    if RAW[4].load(Ordering::SeqCst) >= need {
                         break;
                     }
                     libc::usleep(1000);
